@@ -1445,3 +1445,266 @@ func constCallResult(v ssa.Value) *ssa.Const {
 	}
 	return k
 }
+
+// checkReceivedValuesUnchanged: what the verifier is given - message, RelayState, SigAlg, Signature - are the form
+// values as received (no trimming, case folding or re-encoding on the way): the service provider signed exactly the
+// octets it sent, and any edit makes a correct signature fail (C07) or lets a modified value pass (C05).
+func (cx *Ctx) checkReceivedValuesUnchanged(r *Report) {
+	w := cx.W
+	vf := cx.vflow(kSSO)
+	if vf == nil {
+		return
+	}
+	fv := func(n string) string { return fmt.Sprintf("ext:(*http.Request).FormValue(%q)#0", n) }
+	spKey := matchFnKey(w, "serviceprovider.(*ServiceProvider).ValidateRedirectSignature")
+	for _, s := range []struct {
+		key string
+		idx int
+		src string
+	}{{"request", 1, "SAMLRequest"}, {"relayState", 2, "RelayState"}, {"sigAlg", 3, "SigAlg"}, {"signature", 4, "Signature"}} {
+		ls, sites := vf.CallArgSources(spKey, s.idx)
+		if len(sites) == 0 {
+			r.Fail("R-VFG", "sso:received:"+s.key, "", "the redirect signature verifier is not called from the SSO handler")
+			continue
+		}
+		r.checkSources("R-VFG", "sso:received:"+s.key, w.InstrPos(sites[0]), ls, []string{fv(s.src)}, []string{fv(s.src)}, true)
+	}
+}
+
+// checkNoTemplateBypass: no value of a type html/template does not escape (template.HTML, URL, JS ...) is created
+// anywhere in the module: what is put into a page arrives at the receiver exactly as it was given.
+func (cx *Ctx) checkNoTemplateBypass(r *Report) {
+	w := cx.W
+	n := 0
+	for _, fn := range w.Funcs {
+		for _, b := range fn.Blocks {
+			for _, in := range b.Instrs {
+				if v, ok := in.(ssa.Value); ok {
+					if bt := isBypassType(v.Type()); bt != "" {
+						n++
+						r.Fail("R-TPL", "bypass:"+w.FuncKey(fn)+":"+bt, w.InstrPos(in), "a value of type "+bt+" is created: html/template does not escape it, tags in it are dropped and character references resolved - the value the receiver gets is not the value that was put in")
+					}
+				}
+			}
+		}
+	}
+	if n == 0 {
+		r.Ok("R-TPL", "no-bypass-types", "", "no html/template bypass type is constructed in the module")
+	}
+}
+
+// checkCallbackLookupKey: the stored request is looked up under the id parameter of the callback as it was received
+// (decoded once by net/http): a second decoding, trimming or cutting makes the callback answer for another stored
+// request than the one the caller named.
+func (cx *Ctx) checkCallbackLookupKey(r *Report) {
+	w := cx.W
+	vf := cx.vflow(kCallback)
+	if vf == nil {
+		return
+	}
+	ls, sites := vf.CallArgSources(matchStorage("AuthRequestByID"), 1)
+	idLeaf := `ext:(url.Values).Get("id")#0`
+	if len(sites) != 1 {
+		r.Fail("R-VFG", "callback:AuthRequestByID:id", "", fmt.Sprintf("%d call sites of AuthRequestByID in the callback handler's scope", len(sites)))
+		return
+	}
+	r.checkSources("R-VFG", "callback:AuthRequestByID:id", w.InstrPos(sites[0]), ls, []string{idLeaf, "const:"}, []string{idLeaf}, true)
+}
+
+// checkKeyDescriptorCertificate: the certificate published in the KeyDescriptor is the plain base64 of the signing
+// certificate's bytes (no line wrapping or other text edits: the KeyDescriptor is part of the signed metadata, and
+// what consumers compare / verify with is this text).
+func (cx *Ctx) checkKeyDescriptorCertificate(r *Report) {
+	w := cx.W
+	vm := cx.vflow(kMeta)
+	if vm == nil {
+		return
+	}
+	cert := []string{"ext:iface:provider.IdentityProviderStorage.GetResponseSigningKey#0.Certificate", "global:base64.StdEncoding"}
+	lso, own := vm.StoreSourcesIn("provider.(*IdentityProviderConfig).getMetadata", "xml_dsig.X509DataType", "X509Certificate")
+	if len(own) == 0 {
+		r.Fail("R-VFG", "metadata:KeyDescriptor-certificate", "", "getMetadata fills no X509Certificate")
+		return
+	}
+	r.checkSources("R-VFG", "metadata:KeyDescriptor-certificate", w.InstrPos(own[0]), lso, cert, cert[:1], false)
+	_, hasB64 := lso["via:(*base64.Encoding).EncodeToString"]
+	r.Check(hasB64, "R-VFG", "metadata:KeyDescriptor-encoding", w.InstrPos(own[0]), "base64 of the DER certificate", "the KeyDescriptor certificate is not the base64 encoding of the certificate bytes")
+}
+
+// checkFailedResponsesFresh: the message a failed reply carries is built from scratch by its constructor: what
+// makeFailedResponse / errorResponse / makeFailedLogoutResponse return comes from an allocation made during that
+// very call, not from an object kept in the Response (an envelope shared with the Success message keeps its
+// Assertion and Signature).
+func (cx *Ctx) checkFailedResponsesFresh(r *Report) {
+	w := cx.W
+	for _, k := range []string{"provider.(*Response).makeFailedResponse", "provider.(*LogoutResponse).makeFailedLogoutResponse"} {
+		fn := w.Func(k)
+		if fn == nil {
+			r.Fail("R-VFG", "fresh:"+k, "", "anchor not found")
+			continue
+		}
+		vf := cx.newVFlow("fresh:"+k, fn)
+		ls := LabelSet{}
+		for _, ret := range returnsOf(fn) {
+			if len(ret.Results) > 0 {
+				ls.addAll(vf.Labels(ret.Results[0]), 0)
+			}
+		}
+		bad := ""
+		for _, l := range ls.leaves() {
+			if !strings.HasPrefix(l, "alloc:") && l != "const:zero" {
+				bad = l
+			}
+		}
+		r.Check(bad == "" && len(ls) > 0, "R-VFG", "fresh:"+k, w.FnPos(fn), "returns a message allocated by this call", "the failed message can be "+bad+", an object that outlives the call: what an earlier (Success) message put into it - assertion, signature - is sent with the failure status")
+	}
+}
+
+// checkSigningContextMethod: a signing context made with goxmldsig's constructors signs with rsa-sha256 until
+// SetSignatureMethod is called: every function of the module that creates one sets the method (from the algorithm it
+// is given) before the context leaves it - otherwise the SigAlg announced and the algorithm used differ.
+func (cx *Ctx) checkSigningContextMethod(r *Report) {
+	w := cx.W
+	n := 0
+	for _, fn := range w.Funcs {
+		for _, c := range callsIn(fn) {
+			nm := calleeName(c)
+			if !strings.HasSuffix(nm, "goxmldsig.NewDefaultSigningContext") && !strings.HasSuffix(nm, "goxmldsig.NewSigningContext") {
+				continue
+			}
+			call, ok := c.(*ssa.Call)
+			if !ok {
+				continue
+			}
+			n++
+			// the context value (first result)
+			var ctxVals []ssa.Value
+			ctxVals = append(ctxVals, call)
+			for _, ref := range nonDebugRefs(call) {
+				if ex, isEx := ref.(*ssa.Extract); isEx && ex.Index == 0 {
+					ctxVals = append(ctxVals, ex)
+				}
+			}
+			set := false
+			for _, c2 := range callsIn(fn) {
+				if strings.HasSuffix(calleeName(c2), "goxmldsig.SigningContext).SetSignatureMethod") && len(c2.Common().Args) >= 2 {
+					recv := c2.Common().Args[0]
+					for _, cv := range ctxVals {
+						if recv == cv {
+							set = true
+						}
+						for _, a := range cx.Fx.aliasesOf(cv) {
+							if a == recv {
+								set = true
+							}
+						}
+					}
+					// every return that hands the context out is dominated by the call
+					if set {
+						for _, ret := range returnsOf(fn) {
+							if len(ret.Results) > 0 && !isNilConst(ret.Results[0]) && !(c2.Block() == ret.Block() || c2.Block().Dominates(ret.Block())) {
+								set = false
+							}
+						}
+					}
+				}
+			}
+			r.Check(set, "R-VFG", "signing-context-method@"+w.FuncKey(fn), w.InstrPos(c), "SetSignatureMethod is called on the new context before it is handed out", w.FuncKey(fn)+" creates a signing context and hands it out without setting the signature method: it signs with the library default (rsa-sha256) whatever algorithm is configured and announced in SigAlg")
+		}
+	}
+	if n == 0 {
+		r.Ok("R-VFG", "signing-context-method", "", "no goxmldsig signing context is created in the module")
+	}
+}
+
+// checkAlgorithmValidatedBeforeSigner: a signer / signing context is created only after the configured algorithm
+// passed isValidSignatureAlgorithm (the libraries map unknown or empty identifiers to a default instead of failing).
+func (cx *Ctx) checkAlgorithmValidatedBeforeSigner(r *Report) {
+	w, fx := cx.W, cx.Fx
+	n := 0
+	for _, fn := range w.Funcs {
+		if fn.Pkg == nil || shortPkg(fn.Pkg.Pkg.Path()) != "signature" {
+			continue
+		}
+		for _, c := range callsIn(fn) {
+			nm := calleeName(c)
+			// (a goxmldsig signing context rejects an unknown identifier itself, in SetSignatureMethod - see
+			// checkSigningContextMethod; xmlsig does not)
+			if !strings.HasSuffix(nm, "xmlsig.NewSignerWithOptions") && !strings.HasSuffix(nm, "xmlsig.NewSigner") {
+				continue
+			}
+			n++
+			ok := false
+			for _, a := range fx.AtomsAt(c.(ssa.Instruction)) {
+				if a.Op == "NIL" && !a.Neg && strings.Contains(a.A, "isValidSignatureAlgorithm") {
+					ok = true
+				}
+			}
+			// or the function is only reached from callers that validated (entry atoms are part of AtomsAt)
+			r.Check(ok, "R-GUARD", "algorithm-validated@"+w.FuncKey(fn)+":"+shortCallee(nm), w.InstrPos(c), "created only after isValidSignatureAlgorithm returned nil", w.FuncKey(fn)+" creates a signer without having validated the configured algorithm: the signing library maps an empty or unknown identifier to a default (rsa-sha1) instead of failing, and a Success assertion is issued where the key configuration is unusable")
+		}
+	}
+	if n == 0 {
+		r.Fail("R-GUARD", "algorithm-validated", "", "no signer construction found in package signature")
+	}
+}
+
+// checkContextKeys: every context key of the module is written by one function only. Two keys of the same type
+// with the same constant value are one key to context.Value: whatever the second stores (a request id taken from a
+// header) replaces what the first stored (the issuer in effect).
+func (cx *Ctx) checkContextKeys(r *Report) {
+	w := cx.W
+	type site struct {
+		fn  *ssa.Function
+		pos string
+	}
+	byKey := map[string][]site{}
+	for _, fn := range w.Funcs {
+		for _, c := range callsIn(fn) {
+			if calleeName(c) != "context.WithValue" || len(c.Common().Args) < 3 {
+				continue
+			}
+			k := c.Common().Args[1]
+			if mi, ok := k.(*ssa.MakeInterface); ok {
+				k = mi.X
+			}
+			kc, ok := k.(*ssa.Const)
+			if !ok {
+				// a package variable initialised with a constant (`var issuerKey valueKey = 1`)
+				if ld, isLd := k.(*ssa.UnOp); isLd {
+					if g, isG := ld.X.(*ssa.Global); isG && g.Pkg != nil {
+						if ini := g.Pkg.Func("init"); ini != nil {
+							for _, st := range cx.Fx.info(ini).stores {
+								if st.Addr == ssa.Value(g) {
+									kc, _ = st.Val.(*ssa.Const)
+								}
+							}
+						}
+					}
+				}
+			}
+			if kc == nil || kc.Value == nil {
+				continue
+			}
+			key := typeKey(kc.Type()) + "=" + kc.Value.ExactString()
+			byKey[key] = append(byKey[key], site{fn, w.InstrPos(c)})
+		}
+	}
+	var keys []string
+	for k := range byKey {
+		keys = append(keys, k)
+	}
+	sort.Strings(keys)
+	for _, k := range keys {
+		fns := map[*ssa.Function]bool{}
+		where := ""
+		for _, s := range byKey[k] {
+			fns[s.fn] = true
+			where += " " + s.pos
+		}
+		r.Check(len(fns) == 1, "R-WHO", "context-key:"+k, "", "written by one function", "the context key "+k+" is written by "+fmt.Sprint(len(fns))+" functions ("+strings.TrimSpace(where)+"): two constants of one type with the same value are the same key - a value stored for another purpose replaces the issuer in effect")
+	}
+	if len(keys) == 0 {
+		r.Fail("R-WHO", "context-key", "", "no context key with a constant value found: the issuer no longer travels in the request context under the module's key")
+	}
+}
